@@ -180,7 +180,7 @@ func genC04(seed uint64, idx int) *Plan {
 		if r.IntN(2) == 0 {
 			h.Steps = append(h.Steps, HStep{Side: "c", Kind: "ccs"})
 		}
-		h.Steps = append(h.Steps, HStep{Side: "b", Kind: "hrr", Join: r.IntN(2) == 0})
+		h.Steps = append(h.Steps, HStep{Side: "b", Kind: "hrr", Join: r.IntN(2) == 0, SlowReturn: h.Concurrent && r.IntN(2) == 0})
 		if r.IntN(2) == 0 {
 			h.Steps = append(h.Steps, HStep{Side: "b", Kind: "ccs"})
 		}
